@@ -367,6 +367,20 @@ public:
         }
         if (inRoot(FD->getLocation())) a += ",\"xen\":1";
         if (FD->isNoReturn()) a += ",\"noreturn\":1";
+        if (const TemplateArgumentList *TAL = FD->getTemplateSpecializationArgs()) {
+          // non-type template arguments of the callee (integral / bool), e.g. enqueue<false, true>
+          std::string ta;
+          bool any = false;
+          for (const TemplateArgument &TA : TAL->asArray()) {
+            if (!ta.empty()) ta += ",";
+            if (TA.getKind() == TemplateArgument::Integral) {
+              ta += llvm::toString(TA.getAsIntegral(), 10);
+              any = true;
+            } else
+              ta += "\"_\"";
+          }
+          if (any) a += ",\"targs\":[" + ta + "]";
+        }
       } else {
         a += ",\"callee\":\"?\"";
       }
